@@ -415,3 +415,38 @@ pub fn gen_serde_events(r: &mut StdRng, specs: &[SchemeSpec], schemes: &[Scheme]
         }
     }
 }
+
+/// fresh observation for a recorded serde event (used by --replay)
+pub fn reobserve(specs: &[SchemeSpec], schemes: &[Scheme], e: &mut Value) {
+    let sid = e["sch"].as_u64().unwrap() as usize;
+    let spec = &specs[sid - 1];
+    let scheme = &schemes[sid - 1];
+    let kind = e["ev"].as_str().unwrap().to_string();
+    match kind.as_str() {
+        "ser" | "rt" => {
+            let cs: CtxSpec = serde_json::from_value(e["ctx"].clone()).unwrap();
+            let ctx = build_ctx(scheme, spec, &cs);
+            let text = serde_json::to_string(&ctx).unwrap_or_default();
+            if kind == "ser" {
+                let parsed = entries_of_text(&text, spec);
+                let same_value = match (serde_json::from_str::<Value>(&text), serde_json::to_value(&ctx)) {
+                    (Ok(a), Ok(b)) => a == b,
+                    _ => false,
+                };
+                let (fields, lists, has) = parsed.clone().unwrap_or((vec![], vec![], false));
+                e["well_formed"] = json!(parsed.is_some());
+                e["same_value"] = json!(same_value);
+                e["fields"] = json!(fields);
+                e["haslists"] = json!(has);
+                e["lists"] = json!(lists);
+                e["text"] = json!(text);
+            } else {
+                e["ways"] = feed(scheme, spec, sid, &text);
+            }
+        }
+        _ => {
+            let text = e["text"].as_str().unwrap().to_string();
+            e["ways"] = feed(scheme, spec, sid, &text);
+        }
+    }
+}
